@@ -4,6 +4,7 @@
 -/
 import OptreeModel.Lemmas.Leaves
 import OptreeModel.Lemmas.SortCanon
+import OptreeModel.Lemmas.ShapeOf
 
 namespace Optree
 
@@ -240,5 +241,96 @@ theorem C02_int_keys_canonical (is is' : List Int) (hp : is.Perm is') (hnd : is.
     exact hnd.1 (e ▸ hj)
 
 example : totalOrderSort [.int 3, .int (-1), .int 2] = totalOrderSort [.int 2, .int 3, .int (-1)] := by decide
+
+
+/-! ### the insertion order of a dict with sortable keys is irrelevant -/
+
+theorem nodup_of_map_fst {α : Type} : ∀ (l : List (Key × α)), (l.map (·.1)).Nodup → l.Nodup
+  | [], _ => List.nodup_nil
+  | p :: l, h => by
+      simp only [List.map_cons, List.nodup_cons] at h ⊢
+      exact ⟨fun hm => h.1 (List.mem_map_of_mem hm), nodup_of_map_fst l h.2⟩
+
+theorem fst_inj_of_nodup {α : Type} : ∀ (l : List (Key × α)), (l.map (·.1)).Nodup →
+    ∀ a ∈ l, ∀ b ∈ l, a.1 = b.1 → a = b
+  | [], _, a, ha, _, _, _ => by simp at ha
+  | p :: l, h, a, ha, b, hb, e => by
+      simp only [List.map_cons, List.nodup_cons] at h
+      simp only [List.mem_cons] at ha hb
+      rcases ha with rfl | ha <;> rcases hb with rfl | hb
+      · rfl
+      · exact absurd (e ▸ List.mem_map_of_mem (f := (·.1)) hb) h.1
+      · exact absurd (e ▸ List.mem_map_of_mem (f := (·.1)) ha) h.1
+      · exact fst_inj_of_nodup l h.2 a ha b hb e
+
+/-- items with pairwise distinct, strictly totally ordered keys sort to the same list from every order -/
+theorem totalOrderSortOn_canonical {α : Type} (items items' : List (Key × α)) (hp : items.Perm items')
+    (hnd : (items.map (·.1)).Nodup) (hto : StrictTotalOn Key.ltD (items.map (·.1))) :
+    totalOrderSortOn (·.1) items = totalOrderSortOn (·.1) items' := by
+  have hpk : (items.map (·.1)).Perm (items'.map (·.1)) := hp.map _
+  have hndI : items.Nodup := nodup_of_map_fst items hnd
+  have hinj : ∀ a ∈ items, ∀ b ∈ items, a ≠ b → a.1 ≠ b.1 := by
+    intro a ha b hb hne e
+    exact hne (fst_inj_of_nodup items hnd a ha b hb e)
+  have htoI : StrictTotalOn (fun a b : Key × α => Key.ltD a.1 b.1) items :=
+    ⟨fun a ha => hto.irrefl a.1 (List.mem_map_of_mem ha),
+     fun a ha b hb c hc => hto.trans a.1 (List.mem_map_of_mem ha) b.1 (List.mem_map_of_mem hb) c.1
+       (List.mem_map_of_mem hc),
+     fun a ha b hb hne => hto.total a.1 (List.mem_map_of_mem ha) b.1 (List.mem_map_of_mem hb) (hinj a ha b hb hne)⟩
+  have hs1 : stage1Ok (items.map (·.1)) = true := by
+    unfold stage1Ok
+    rw [allPairs_iff_mem Key.comparable Key.comparable_symm _ hnd]
+    intro a ha b hb hne
+    rcases hto.total a ha b hb hne with h | h
+    · simp only [Key.ltD] at h
+      unfold Key.comparable
+      cases hl : Key.lt? a b <;> simp_all
+    · rw [Key.comparable_symm]
+      simp only [Key.ltD] at h
+      unfold Key.comparable
+      cases hl : Key.lt? b a <;> simp_all
+  have hs1' : stage1Ok (items'.map (·.1)) = true := by
+    rw [← hs1]
+    exact (allPairs_perm Key.comparable Key.comparable_symm _ _ hnd hpk).symm
+  unfold totalOrderSortOn
+  simp only [hs1, hs1', if_true]
+  exact sortBy_canonical _ items items' htoI hp hndI
+
+/-- **One dict node, two insertion orders** (sorted mode, keys pairwise distinct and strictly totally ordered by
+`<`: ints, strings, int tuples, objects of one orderable class with distinct ranks): the node's children are
+visited in the same order, so the leaves are identical, and the two treespec nodes have the same sorted keys
+and the same children — they differ only in the remembered insertion order (`original_keys`), which `==`
+and `hash` ignore (C06) and `unflatten` uses to restore each dict's own order (C01). -/
+theorem C02_dict_insertion_order_irrelevant (cfg : Cfg) (hpn : cfg.pred = Option.none)
+    (kvs kvs' : List (Key × PyObj)) (hp : kvs.Perm kvs') (hnd : (kvs.map (·.1)).Nodup)
+    (hto : StrictTotalOn Key.ltD (kvs.map (·.1))) :
+    leavesOf cfg true (.dict kvs) = leavesOf cfg true (.dict kvs') ∧
+    ∃ ks cs, shapeOf cfg true (.dict kvs) = .node (plainInfo .dict (.keys ks) (some (kvs.map (·.1)))) cs ∧
+      shapeOf cfg true (.dict kvs') = .node (plainInfo .dict (.keys ks) (some (kvs'.map (·.1)))) cs := by
+  have hpt : ∀ x, cfg.predTrue x = false := fun x => by simp [Cfg.predTrue, Cfg.evalPred, hpn]
+  have eK : ∀ l : List (Key × PyObj), leavesOfKVs cfg true l = l.map fun p => (p.1, leavesOf cfg true p.2) := by
+    intro l
+    induction l with
+    | nil => rfl
+    | cons p l ih => obtain ⟨k, x⟩ := p; simp only [leavesOfKVs, List.map_cons, ih]
+  have e1 := eK kvs
+  have e1' := eK kvs'
+  have key : ∀ {β : Type} (g : Key × PyObj → Key × β), (∀ p, (g p).1 = p.1) →
+      dictOrder false true (kvs.map g) = dictOrder false true (kvs'.map g) := by
+    intro β g hg
+    simp only [dictOrder, Bool.not_false, Bool.and_self, if_true]
+    apply totalOrderSortOn_canonical _ _ (hp.map g)
+    · simpa [List.map_map, Function.comp_def, hg] using hnd
+    · simpa [List.map_map, Function.comp_def, hg] using hto
+  refine ⟨?_, ?_⟩
+  · simp only [leavesOf, hpt, Bool.false_eq_true, if_false, e1, e1']
+    rw [key (fun p => (p.1, leavesOf cfg true p.2)) (fun _ => rfl)]
+  · simp only [shapeOf, shapeOfKVs_eq]
+    rw [key (fun p => (p.1, shapeOf cfg true p.2)) (fun _ => rfl)]
+    exact ⟨_, _, rfl, rfl⟩
+
+/-- non-vacuity: integer keys inserted as 3, 1, 2 and as 2, 3, 1 -/
+example : StrictTotalOn Key.ltD ([(Key.int 3, PyObj.leaf 0 1), (.int 1, .leaf 0 2), (.int 2, .leaf 0 3)].map (·.1)) :=
+  intKeys_strictTotal [3, 1, 2]
 
 end Optree
